@@ -739,6 +739,9 @@ class Outcome:
         self.l2 = None
 
 
+_APP_BLOCKING_RUNTIME = BlockingRuntime()
+
+
 def run_config(config, bundle, request, world, stream, policy=None,
                instrumentation_factory=None, middlewares_factory=None,
                max_steps=200000):
@@ -794,9 +797,13 @@ def run_config(config, bundle, request, world, stream, policy=None,
             out.result = _in_handler(call) if in_except else call()
             out.status = "ok"
         elif config == "blocking-gen":
+            # every other world is served by a runtime object that lives as
+            # long as the process (a module-level ``RUNTIME = ...``)
+            rt_ = _APP_BLOCKING_RUNTIME if world.seed & 1 else \
+                BlockingRuntime()
             call = lambda: process_graphql_query(  # noqa: E731
                 bundle.schema, text, executor_cls=Executor,
-                runtime=BlockingRuntime(), **kw
+                runtime=rt_, **kw
             )
             out.result = _in_handler(call) if in_except else call()
             out.status = "ok"
